@@ -349,6 +349,27 @@ class Extractor:
                     if inner:
                         return out + [('loop', subst_poly(P.poly(f, a[1], R), subst), None, inner, n['id'], f)]
                     return out
+        if k == 'CallExpr' and n.get('callee', {}).get('qname') == 'std::generate' and len(f.call_args(n)) == 3:
+            # std::generate(X.begin(), X.end(), []{ return <expr>; }): X[i] = <expr> for i in [0, X.size)
+            a = f.call_args(n)
+            b0, e0 = f.nodes[f.strip(a[0], 'all')], f.nodes[f.strip(a[1], 'all')]
+            lam = f.nodes[f.strip(a[2], 'all')]
+            if lam['k'] != 'LambdaExpr':
+                for x in f.descendants(a[2]):
+                    if f.nodes[x]['k'] == 'LambdaExpr':
+                        lam = f.nodes[x]
+                        break
+            if b0['k'] == 'CXXMemberCallExpr' and b0['callee']['name'] in ('begin',) and e0['k'] == 'CXXMemberCallExpr' and e0['callee']['name'] in ('end',) and \
+                    b0.get('obj') is not None and e0.get('obj') is not None and R.render(b0['obj']) == R.render(e0['obj']) and lam['k'] == 'LambdaExpr':
+                body = [x for x in lam['ch'] if f.nodes[x]['k'] == 'CompoundStmt']
+                st = [f.nodes[x] for x in f.nodes[body[0]]['ch']] if body else []
+                if len(st) == 1 and st[0]['k'] == 'ReturnStmt' and st[0]['ch']:
+                    X = substitute(R.render(b0['obj']), subst)
+                    var = 'g%d' % n['id']
+                    inner = self.expr_items(f, R, st[0]['ch'][0], subst, depth, dest='%s[local:%s]' % (X, var))
+                    if inner:
+                        return out + [('loop', {(X + '.size',): 1}, var, inner, n['id'], f)]
+                    return out
         if k == 'CallExpr' and n.get('callee', {}).get('qname') == 'std::for_each':
             from paths import lambda_params
             lp = [v for v in lambda_params(f).values() if v[2] == n['id']]
